@@ -256,3 +256,11 @@ func VerifC04_ProgressingReset() {
 // The Init sub-state obligations of C04 (stable Service restored before a step that replaces all stable pods) and the
 // C03 ordering obligations live in the runCanary step relation (zz_verif_c02.go).
 func VerifC04_CanaryInitStep() { c02Canary(0) }
+
+// C05: whatever the exit reason, the clean-up sequence contains every restoring task (withdraw routes, remove the
+// canary Service, un-pin the stable Service, resume and release the workload) and finalising executes them one by one
+// from the first — none is skipped (the obligations of C04's sequence and cursor harnesses, run under C05 too).
+func VerifC05_CanaryExitSequenceIsComplete()    { VerifC04_CanaryTaskSequence() }
+func VerifC05_BlueGreenExitSequenceIsComplete() { VerifC04_BlueGreenTaskSequence() }
+func VerifC05_CanaryExitRunsEveryTask()         { VerifC04_CanaryFinalisingStep() }
+func VerifC05_BlueGreenExitRunsEveryTask()      { VerifC04_BlueGreenFinalisingStep() }
